@@ -48,6 +48,19 @@ func c16GN(kind int, where string) *refcfg.GeneralName {
 		return &refcfg.GeneralName{Type: "mail", Name: where + "@example.org"}
 	case 4:
 		return &refcfg.GeneralName{Type: "url", Name: "http://" + where + ".example.org/auth"}
+	// spellings that a normalising library would rewrite: the name is carried as written
+	case 5:
+		return &refcfg.GeneralName{Type: "url", Name: "LDAP://" + where + ".Example.ORG/CN=Kammer,DC=example?certificateRevocationList#"}
+	case 6:
+		return &refcfg.GeneralName{Type: "url", Name: "URN:oid:1.2.276.0.76.4.49"}
+	case 7:
+		return &refcfg.GeneralName{Type: "dns", Name: "WWW." + where + ".Example.ORG"}
+	case 8:
+		return &refcfg.GeneralName{Type: "mail", Name: "Mixed.Case+tag@" + where + ".Example.ORG"}
+	case 9:
+		return &refcfg.GeneralName{Type: "url", Name: "http://" + where + ".example.org/a%20b/%7Euser?x=%41&y=1#frag"}
+	case 10:
+		return &refcfg.GeneralName{Type: "ip", Name: "0.0.0.0"}
 	}
 	return nil
 }
@@ -152,6 +165,15 @@ func c16Enumerate(tier string, yield func(any)) {
 					}
 				}
 			}
+		}
+	}
+	// authority names in spellings that a normalising library would rewrite (and the all-zero address)
+	for top := 0; top <= 10; top++ {
+		for aa := 0; aa <= 10; aa++ {
+			if top < 5 && aa < 5 {
+				continue
+			}
+			yield(&c16Case{Kind: "unit", TopAuth: top, AdmAuth: aa, AdmNA: 7, ProfNA: 7, Oids: 1, Reg: 1, Add: 1})
 		}
 	}
 	// shapes: every single-unit variant at every position against default neighbours
